@@ -314,6 +314,24 @@ Proof.
   rewrite IH, map_app, proc_uses_ren. now rewrite idents_ren.
 Qed.
 
+Lemma provider_index_ren ps x : provider_index (map (ren_proc r rf) ps) (r x) = provider_index ps x.
+Proof.
+  unfold provider_index. generalize 0 (@None nat). induction ps as [|q ps IH]; intros n o; cbn [map]; auto.
+  cbn [pr_providers ren_proc]. rewrite idents_ren, str_mem_ren. apply IH.
+Qed.
+Lemma proc_deps_ren ps p : proc_deps (map (ren_proc r rf) ps) (ren_proc r rf p) = proc_deps ps p.
+Proof.
+  unfold proc_deps. rewrite proc_uses_ren. induction (proc_uses p) as [|fn l IH]; cbn [map flat_map]; auto.
+  cbn [ident ren_name]. now rewrite provider_index_ren, IH.
+Qed.
+Lemma deps_acyclic_ren ps : deps_acyclic (map (ren_proc r rf) ps) = deps_acyclic ps.
+Proof.
+  unfold deps_acyclic. rewrite map_length, map_map.
+  assert (E : map (fun x => proc_deps (map (ren_proc r rf) ps) (ren_proc r rf x)) ps = map (proc_deps ps) ps)
+    by (apply map_ext; intros; apply proc_deps_ren).
+  now rewrite E.
+Qed.
+
 Lemma top_names_ren ps assumed : top_names (map (ren_proc r rf) ps) (map rn assumed) = ren_al rn r (top_names ps assumed).
 Proof.
   unfold top_names.
@@ -379,7 +397,7 @@ Proof. intros H. induction 1; cbn; constructor; auto. Qed.
 
 Theorem typing_equivariant_chan p : ProgOK teq p -> ProgOK teq (ren_program r rf p).
 Proof.
-  intros [pe [[ET [EF [EP EA]]] [SD NF [Sg [SO [FO PO]]] NA TA NP DJ U1 U2 U3]]].
+  intros [pe [[ET [EF [EP EA]]] [SD NF [Sg [SO [FO PO]]] NA TA NP DJ U1 U2 U3 AC]]].
   exists (ren_program r rf pe). split.
   - repeat split; cbn [p_types p_funs p_procs p_assumed ren_program]; auto.
     + eapply Forall2_map; eauto using elab_fun_ren.
@@ -401,6 +419,7 @@ Proof.
       rewrite !In_ren. auto.
     + rewrite uses_ren, idents_ren. intros x Hx. apply in_map_iff in Hx. destruct Hx as [y [<- Hy]].
       rewrite In_ren. auto.
+    + now rewrite deps_acyclic_ren.
 Qed.
 End Prog.
 End Renaming.
